@@ -24,6 +24,8 @@ import re
 from collections import OrderedDict
 
 from sim import simfs as F
+from sim import threads as T
+from sim.tape import Tape
 from sim.envs import clear_process_caches
 from sim.core import Outcome, digest
 
@@ -35,7 +37,13 @@ RULE = (
     "over a simulated file system and clock; auto_reload on/off; cache sizes 0, 1, 2, 3, -1, 400; every operation compared with "
     "a reference cache model through rendered version / TemplateNotFound / len(cache); optional injected EIO on open or "
     "getmtime for one operation (FileSystemLoader). Non-trivial = the history contains a get/select that the model answers from "
-    "the cache after an intervening modify/delete/swap/tick, or an eviction, or a fired fault; distinct = digest(config, history)."
+    "the cache after an intervening modify/delete/swap/tick, or an eviction, or a fired fault; distinct = digest(config, history). "
+    "One run in four is CONCURRENT: 1-2 reader threads (get/select on an environment or its overlay) and an external writer "
+    "(modify/delete/add, clock ticked) under the baton scheduler with 0-3 drawn pre-emptions at source lines of environment.py / "
+    "loaders.py / utils.py, instructions inside LRUCache and simulated syscalls; an in-flight operation may observe any version "
+    "current inside its window (or fail with the storage's own lookup error when the file/key was deleted under it), and after "
+    "quiescence every lookup is checked strictly again (current source, repeatable, capacity); non-trivial there = a source "
+    "change landed strictly inside an operation's invoke/return window."
 )
 ASSUMPTIONS = [
     "the reference cache model (LRU of (loader, name) with touch-on-lookup, evict-oldest-on-insert, hit requires not auto_reload or up-to-date) states the documented behaviour",
@@ -44,7 +52,8 @@ ASSUMPTIONS = [
 ]
 REAL_STUB = {
     "real": ["jinja2.Environment.get_template/select_template/_load_template", "LRUCache", "DictLoader/FunctionLoader/FileSystemLoader", "compiler (tiny templates)"],
-    "stub": ["file system + clock (SimFS, SimClock) behind jinja2.loaders.os/open", "loader storage (mutable dict)"],
+    "stub": ["file system + clock (SimFS, SimClock) behind jinja2.loaders.os/open", "loader storage (mutable dict)",
+             "thread scheduler (baton passing; sys.monitoring LINE/INSTRUCTION events) and threading.Lock -> SimLock in concurrent runs"],
 }
 BUDGET = {"quick": 25, "thorough": 600}
 NAMES = ("a", "b", "c")
@@ -60,8 +69,21 @@ def setup() -> None:
         return
     import sim
 
-    sim.use_repo()
+    src = sim.use_repo()
     F.install()
+    # concurrent mode: baton-passed threads, pre-empted at source lines of every function of environment.py /
+    # loaders.py / utils.py (a second monitoring tool, switched on only for those runs) and at bytecode
+    # instructions inside LRUCache; lexer / parser / compiler are not pre-empted (thread-private work)
+    import jinja2.debug  # noqa: F401
+    import jinja2.ext  # noqa: F401
+    import jinja2.environment as E
+    import jinja2.loaders as L
+    import jinja2.utils as U
+
+    T.install(src, line_events=False, instr_classes=[U.LRUCache])
+    T.install_deep(T.module_functions(E) + T.module_functions(L) + T.module_functions(U, exclude_classes=[U.LRUCache]))
+    U.Lock = T.SimLock
+    T.neutralise_real_locks()
     _setup_done = True
 
 
@@ -266,11 +288,230 @@ def _observe(env, names, fs):
     return int(m.group(2)), m.group(1)
 
 
+def _cur_between(hist, name, lo, hi):
+    """Versions (None = absent) that were current for `name` at some stamp in [lo, hi]."""
+    h = hist[name]
+    res = set()
+    for i, (s_, v) in enumerate(h):
+        end = h[i + 1][0] if i + 1 < len(h) else float("inf")
+        if s_ <= hi and end >= lo:
+            res.add(v)
+    return res
+
+
+CONC_KINDS = ("fs", "dict", "func-triple", "func-str")
+
+
+def run_concurrent(tape) -> Outcome:
+    """Readers (get / select on one environment or its overlay) and one external writer (modify / delete / add,
+    each after a clock tick so the mtime always changes) as simulated threads; pre-emption at source lines of
+    environment.py / loaders.py / utils.py, at instructions inside LRUCache and at every simulated syscall.
+
+    Oracle.  During the phase an operation may observe any version that was current at some instant between its
+    invoke and its return (or, where the documented behaviour is "no reload", any earlier version); it raises
+    nothing but TemplateNotFound (only if every requested name was absent at some instant of its window) or the
+    OSError of a file deleted under its feet.  AFTER the phase (quiescence, clock ticked) the check is strict
+    again: with auto-reload and an up-to-date check every name renders its current source or is not found; a
+    size-0 cache always serves the current source; a repeated lookup returns the same; capacity holds."""
+    import jinja2
+
+    out = Outcome()
+    kind = CONC_KINDS[tape.draw(len(CONC_KINDS))]
+    auto_reload = tape.draw(4) != 0
+    size = SIZES[tape.draw(len(SIZES))]
+    nnames = 1 + tape.draw(2)
+    names = NAMES[:nnames]
+    nreaders = 1 + tape.draw(2)
+    two_envs = tape.draw(3) == 2
+    rprogs = []
+    for _ in range(nreaders):
+        ops = []
+        for _ in range(1 + tape.draw(2)):
+            ei = tape.draw(2) if two_envs else 0
+            if tape.draw(4) == 0:
+                ops.append((ei, [tape.pick(names) for _ in range(1 + tape.draw(2))]))
+            else:
+                ops.append((ei, tape.pick(names)))
+        rprogs.append(ops)
+    wops = [(("modify", "modify", "delete", "add")[tape.draw(4)], tape.pick(names)) for _ in range(1 + tape.draw(3))]
+    warm = [(tape.draw(2) if two_envs else 0, tape.pick(names)) for _ in range(tape.draw(3))]
+    initial = [tape.draw(4) != 0 for _ in names]
+
+    def execute(sched_tape, plan, serial):
+        clear_process_caches()
+        clock = F.SimClock()
+        fs = F.use(F.SimFS(clock))
+        st = Storage(kind, fs)
+        hist = {n: [(0, None)] for n in names}
+        for n, present in zip(names, initial):
+            if present:
+                hist[n] = [(0, st.write(n))]
+        env0 = jinja2.Environment(loader=st.make_loader(), auto_reload=auto_reload, cache_size=size)
+        envs = [env0, env0.overlay()] if two_envs else [env0]
+        for e_ in envs:
+            T.scan_replace_locks(e_)
+            if e_.cache is not None:
+                T.scan_replace_locks(e_.cache)
+            e_.lexer  # noqa: B018 - built outside the simulated run
+        for ei, n in warm:
+            _observe(envs[ei], n, fs)
+        sched = T.Sched(sched_tape, step_cap=400_000, line_level=True, wall_cap=30.0)
+        sched.fs = fs
+        fs.sched = sched
+        records = [[None] * len(ops) for ops in rprogs]
+
+        def reader(tid, ops):
+            def fn():
+                for j, (ei, arg) in enumerate(ops):
+                    inv = sched.stamp()
+                    obs, extra = _observe(envs[ei], arg, fs)
+                    records[tid][j] = (inv, sched.stamp(), obs, extra)
+            return fn
+
+        def writer():
+            for what, n in wops:
+                sched.yield_point("sys")
+                clock.advance(1.0)
+                if what == "delete":
+                    st.delete(n)
+                    hist[n].append((sched.stamp(), None))
+                elif what == "add" and n in st.cur:
+                    continue
+                else:
+                    hist[n].append((sched.stamp(), st.write(n)))
+            sched.yield_point("sys")
+
+        for tid, ops in enumerate(rprogs):
+            sched.spawn(reader(tid, ops), f"R{tid}")
+        sched.spawn(writer, "W")
+        sched.plan(plan)
+        T.set_deep(True)
+        try:
+            if serial:
+                sched.run_serial()
+            else:
+                sched.run()
+        finally:
+            T.set_deep(False)
+            fs.sched = None
+        return sched, records, hist, st, envs, fs, clock
+
+    s0 = execute(Tape(streams={}), [], True)[0]
+    horizons = [max(th.local_step, 1) for th in s0.threads]
+    nthreads = nreaders + 1
+    plan = []
+    for _ in range(tape.draw(4, "s")):
+        if tape.draw(4, "s"):
+            tid = tape.draw(nreaders, "s")
+            tgt = tape.draw(nthreads - 1, "s") if tape.draw(3, "s") == 0 else None
+        else:
+            tid, tgt = nreaders, tape.draw(nthreads - 1, "s")
+        step = 1 + tape.draw(horizons[tid], "s")
+        if tgt is None:
+            # aim at the writer: candidates are the runnable threads other than `tid`, in tid order; the writer is last
+            tgt = nthreads - 2
+        plan.append((tid, step, tgt))
+    sched, records, hist, st, envs, fs, clock = execute(tape, plan, False)
+    out.count("concurrent_runs")
+    out.count("preemptions_fired", sched.preempts_fired)
+    out.count("lock_contention_blocks", sched.lock_blocks)
+    out.count("conc_loader_" + kind)
+    dec = {"mode": "concurrent", "loader": kind, "auto_reload": auto_reload, "cache_size": size, "names": names,
+           "environments": len(envs), "initial": initial, "warmup": warm, "readers": rprogs, "writer": wops,
+           "plan(tid,local_step,target)": plan, "switch_trace": sched.trace[:40],
+           "timeline": {n: hist[n] for n in names}, "records": [[list(map(str, r)) if r else None for r in rs] for rs in records]}
+    out.decoded = dec
+    out.trace = digest([sched.trace, [[(r[0], r[1], str(r[2])) if r else None for r in rs] for rs in records]])
+    out.sim_time = clock.covered
+    cfgsig = (kind, "auto_reload" if auto_reload else "no_reload", f"size{size}")
+    if sched.abort == "deadlock":
+        out.violate(("conc-deadlock",) + cfgsig, trace=sched.trace[-5:])
+        return out
+    if sched.abort:
+        raise T.HarnessError("run aborted: " + sched.abort)
+    for th in sched.threads:
+        if th.exc is not None:
+            raise T.HarnessError(f"harness thread raised {th.exc!r}")
+    stale_ok = size != 0 and (not auto_reload or kind == "func-str")
+    overlapped = False
+    end = sched.evseq + 1
+    for tid, ops in enumerate(rprogs):
+        for j, (ei, arg) in enumerate(ops):
+            rec = records[tid][j]
+            if rec is None:
+                out.violate(("conc-op-did-not-return",) + cfgsig, thread=tid, op=j)
+                return out
+            inv, ret, obs, extra = rec
+            req = [arg] if isinstance(arg, str) else list(arg)
+            if any(inv < s_ < ret for n in req for (s_, _v) in hist[n]):
+                overlapped = True
+            if isinstance(obs, int):
+                n = extra
+                ok = n in req and (obs in _cur_between(hist, n, inv, ret) or (stale_ok and obs in _cur_between(hist, n, 0, ret)))
+                if not ok:
+                    out.violate(("conc-version-never-current-in-window",) + cfgsig, thread=tid, op=j, observed=obs, window=[inv, ret])
+                    return out
+            elif obs == "notfound":
+                if not all(None in _cur_between(hist, n, inv, ret) for n in req):
+                    out.violate(("conc-notfound-but-present",) + cfgsig, thread=tid, op=j, window=[inv, ret])
+                    return out
+            elif obs == "oserror":
+                deleted_in_window = any(inv < s_ < ret and v is None for n in req for (s_, v) in hist[n])
+                if not (kind == "fs" and deleted_in_window and isinstance(extra, FileNotFoundError)):
+                    out.violate(("conc-unexpected-oserror",) + cfgsig, thread=tid, op=j, error=repr(extra))
+                    return out
+            elif obs == ("raised", "KeyError") and kind == "dict" and any(inv < s_ < ret and v is None for n in req for (s_, v) in hist[n]):
+                # the mapping lost the key between DictLoader's membership test and its item access: an in-flight
+                # operation that failed because of the concurrent deletion (like the OSError above), not wrong data
+                out.count("conc_inflight_lookup_failed_by_delete")
+            else:
+                out.violate(("conc-raised",) + cfgsig, thread=tid, op=j, observed=str(obs))
+                return out
+    # quiescence: strict again
+    clock.advance(1.0)
+    strict = size == 0 or (auto_reload and kind != "func-str")
+    post = []
+    for ei, env in enumerate(envs):
+        for n in names:
+            cur = st.cur.get(n)
+            o1, _x = _observe(env, n, fs)
+            o2, _x = _observe(env, n, fs)
+            post.append([f"env{ei}", n, str(o1), str(o2), "current=" + str(cur)])
+            want = cur if cur is not None else "notfound"
+            if strict:
+                bad = o1 != want
+            else:
+                bad = not ((isinstance(o1, int) and o1 in _cur_between(hist, n, 0, end)) or (o1 == "notfound" and cur is None))
+            if bad:
+                what = "stale" if isinstance(o1, int) and isinstance(want, int) and o1 < want else "wrong"
+                out.violate(("conc-" + what + "-after-quiescence",) + cfgsig, env=ei, name=n, observed=str(o1), expected=str(want), post=post)
+                return out
+            if o2 != o1:
+                out.violate(("conc-repeat-differs-after-quiescence",) + cfgsig, env=ei, name=n, first=str(o1), second=str(o2))
+                return out
+        if size > 0 and len(env.cache) > size:
+            out.violate(("over-capacity", f"size{size}"), env=ei)
+            return out
+    dec["post_quiescence"] = post
+    if overlapped:
+        out.count("conc_change_inside_an_operation_window")
+        out.case = digest(["conc", kind, auto_reload, size, rprogs, wops, warm, initial, sched.trace])
+    return out
+
+
 def run(tape) -> Outcome:
     setup()
     clear_process_caches()  # a run must not depend on the runs before it in this worker
     import jinja2
 
+    if tape.draw(4, "m") == 3:
+        gc_was = gc.isenabled()
+        gc.disable()
+        try:
+            return run_concurrent(tape)
+        finally:
+            if gc_was:
+                gc.enable()
     out = Outcome()
     kind = KINDS[tape.draw(len(KINDS))]
     auto_reload = not bool(tape.draw(2))
